@@ -326,6 +326,9 @@ class ExprMixin:
             if isinstance(bv.ty, T.Rec) and isinstance(node.slice, ast.Constant) and isinstance(node.slice.value, str):
                 return root, sels + [("field", node.slice.value)]
             k = self.ev(node.slice, st)
+            if isinstance(bv.ty, T.Map) and not self.spec_mode and self.is_defaultdict((root, sels)):
+                # defaultdict: subscripting inserts the default for a missing key
+                self.defaultdict_touch(st, (root, sels), bv, self.coerce(k, bv.ty.key))
             return root, sels + [("key" if isinstance(bv.ty, T.Map) else "idx", k)]
         if isinstance(node, ast.Attribute):
             base = self.lvalue(node.value, st)
@@ -742,6 +745,10 @@ class ExprMixin:
         return SV(ty.mk(arr, la + lb), ty)
 
     def ev_Subscript(self, node, st, want):
+        if not self.spec_mode and not isinstance(node.slice, ast.Slice) and self.defaultdicts:
+            lv0 = self.lvalue(node.value, st)
+            if lv0 is not None and self.is_defaultdict(lv0):
+                self.lvalue(node, st)  # performs the defaultdict auto-insert
         base = self.ev(node.value, st)
         if isinstance(base, SV) and isinstance(base.ty, T.Opt) and isinstance(base.ty.inner, (T.Seq, T.Map)):
             base = self.unwrap(base, st, node)
